@@ -396,10 +396,17 @@ def c06(work, tier, seed, replay):
     # release and holding an acknowledged checkpoint; start-up (Init, where a schema upgrade would run) is inside the kill window
     for scen in ("H_Grow", "H_GrowGrow"):
         hists.append({"id": "L" + scen[1:], "legacy": True, "steps": [{"op": "update", "log": op["log"], "req": op["req"]} for op in progs[scen][0] if op["kind"] == "update"]})
+    # another process holds a lock on the file while one update commits: COMMIT fails with SQLITE_BUSY and the driver rolls back; the history
+    # goes on and the process is killed afterwards. Nothing that was acknowledged may be missing after the restart.
+    for scen in ("H_TofuGrow", "H_GrowGrow"):
+        ups = [{"op": "update", "log": op["log"], "req": op["req"]} for op in progs[scen][0] if op["kind"] == "update"]
+        pre = [x for x in seqfam.tofu_steps(db0_of(HIST[scen]), 2) if x["log"] == "l1"] if HIST[scen] == "s1" else []
+        for k_ in range(len(pre), len(pre) + len(ups)):
+            hists.append({"id": "B%s%d" % (scen[1:], k_), "busycommit": k_ + 1, "steps": pre + ups})
     hp, tp = work.path("hists.jsonl"), work.path("crash.ndjson")
     write_runs(hp, OPS_PARAMS, hists)
     hp_prod = work.path("hists-prod.jsonl")
-    write_runs(hp_prod, OPS_PARAMS, [h_ for h_ in hists if not h_.get("legacy")])
+    write_runs(hp_prod, OPS_PARAMS, [h_ for h_ in hists if not h_.get("legacy") and not h_.get("busycommit")])
     nrand = 20 if tier == "quick" else 400
     o, dt = run_driver(["crash", "-in", hp, "-out", tp, "-dir", work.sub("db"), "-random", str(nrand), "-seed", str(seed), "-workers", str(NCPU)], timeout=3000)
     rep.notes.append(o.strip())
